@@ -278,8 +278,8 @@ SUBCHECKS = {"prog": x_prog, "twin": x_twin, "xfail_decor": x_xfail_decor, "forc
              "runtest_reuse": x_runtest_reuse}
 
 FEATURES = ("own_exc", "expect", "force", "decor", "noupcall", "nested_cleanup", "handlers", "late_handler",
-            "truthy_return", "base_handler")
-ALL_KINDS = ["fail", "error", "skip", "xfail", "uxs", "kbd", "exit", "kbdsub", "exitsub", "basedirect", "xfail_err", "skip_empty", "skip2", "skipsub",
+            "truthy_return", "base_handler", "eq_exc")
+ALL_KINDS = ["fail", "error", "skip", "xfail", "uxs", "kbd", "exit", "kbdsub", "exitsub", "basedirect", "xfail_err", "skip_empty", "skip2", "unhashable", "skipsub",
              "failsub", "mismatch"]
 
 
@@ -291,7 +291,7 @@ def run(ctx):
             if ctx.mine():
                 n += 1
                 ctx.execute("prog", {"placed": [[stage, kind]]})
-    ctx.note_space("single raise: 5 stages x 16 kinds", n)
+    ctx.note_space("single raise: 5 stages x 17 kinds", n)
     n = 0
     for stage in STAGES:
         for other in (None, "fail", "skip"):
@@ -317,6 +317,22 @@ def run(ctx):
                                 ctx.execute("prog", {"placed": placed, "extra": {"handlers": [[exc, report, 0]]}})
     ctx.note_space("a custom exception (Exception- and BaseException-derived) with a user handler reporting skip / "
                    "xfail / failure / error, before or after a failure / error: 2 x 4 x 10 stage pairs x 2 x 2", n)
+    n = 0
+    for i, s1 in enumerate(STAGES):
+        for s2 in STAGES[i + 1:]:
+            for first in ("skip", "xfail"):
+                if ctx.mine():
+                    n += 1
+                    prog = placed_program([[s1, first], [s2, "eqany"]])
+                    # the later error compares equal (by value) to the earlier, benign exception
+                    for stage in ("su_pre", "su", "test", "td"):
+                        for a in prog[stage]:
+                            for b in ([a] if a[0] == "raise" else a[2] if a[0] == "cleanup" else []):
+                                if b[0] == "raise":
+                                    b[2] = "<<SAME>>"
+                    ctx.execute("prog", {"prog": prog})
+    ctx.note_space("a skip / expected failure, then an error whose class compares by value and is == the earlier "
+                   "exception: 10 stage pairs x 2", n)
     n = 0
     for first_test in ("fail", "error", "skip"):
         for first_cleanup in (["error"], ["fail", "error"], []):
